@@ -32,23 +32,8 @@ var c12Files = []string{"timewheel.go", "queue.go"}
 var c12EntryPoints = map[string]bool{"Queue.discardBroken": true}
 
 func init() {
-	if len(os.Args) >= 2 && (os.Args[1] == "c12sync" || os.Args[1] == "c12rewrite") {
-		if len(os.Args) < 4 {
-			fmt.Fprintln(os.Stderr, "usage: extract c12sync <repo> <out.lean> | extract c12rewrite <repo> <outdir>")
-			os.Exit(2)
-		}
-		var err error
-		if os.Args[1] == "c12sync" {
-			err = c12Sync(os.Args[2], os.Args[3])
-		} else {
-			err = c12Rewrite(os.Args[2], os.Args[3])
-		}
-		if err != nil {
-			fmt.Fprintln(os.Stderr, "extract:", err)
-			os.Exit(1)
-		}
-		os.Exit(0)
-	}
+	commands["c12sync"] = c12Sync
+	commands["c12rewrite"] = c12Rewrite
 }
 
 type c12Fn struct {
